@@ -50,7 +50,7 @@ def plan(tier, seed):
     else:
         for p in range(16):
             shards.append({"kind": "numbytes", "maxlen": 3, "part": p, "parts": 16, "n": 150000, "label": "numbytes%d" % p})
-    shards.append({"kind": "push_small", "two": 1 if q else 1, "n": 3000 if q else 200000, "label": "push_small"})
+    shards.append({"kind": "push_small", "two": 1, "n": 3000 if q else 200000, "label": "push_small"})
     for lo, hi in ((0, 200), (200, 400), (400, 601), (65400, 65601), (69990, 70001)):
         shards.append({"kind": "push_len", "lo": lo, "hi": hi, "reps": 1 if q else 12, "label": "push%d" % lo})
     shards.append({"kind": "trunc", "n": 4000 if q else 200000, "label": "trunc"})
@@ -151,7 +151,9 @@ def run_ints(spec, rec, M):
     hi = -N + total * (part + 1) // parts
     for v in range(lo, hi):
         check_int(v, rec, M)
-    rec.sample({"op": "int_to_script_bytes", "v": hi - 1, "encoding": R.serialize(hi - 1)})
+    if part == 0:
+        v = lo + 1
+        rec.sample({"op": "int_to_script_bytes", "v": v, "encoding": observe(M.ints[0].int_to_script_bytes, v)[1]})
 
 
 def run_int_edges(spec, rec, M):
@@ -172,7 +174,7 @@ def run_int_edges(spec, rec, M):
             nb = (v.bit_length() + 7) // 8
             v = (v & ((1 << (8 * (nb - 1))) - 1)) | (rng.choice([0x7f, 0x80, 0x81, 0xff, 0x01]) << (8 * (nb - 1)))
         check_int(v if rng.random() < 0.5 else -v, rec, M)
-    rec.sample({"op": "int_to_script_bytes", "v": -(1 << 71), "encoding": R.serialize(-(1 << 71))})
+    rec.sample({"op": "int_to_script_bytes", "v": -(1 << 71), "encoding": observe(M.ints[0].int_to_script_bytes, -(1 << 71))[1]})
 
 
 def run_numbytes(spec, rec, M):
@@ -342,7 +344,6 @@ def run_push_small(spec, rec, M):
             else:
                 datas.append(bytes(rng.getrandbits(8) for _ in range(L)))
         check_push_list(datas, rec, M, {"kind": "pushlist", "datas": datas})
-    rec.sample({"op": "compile_push_data", "data": b"\x81", "push": R.push_encode(b"\x81")})
 
 
 def run_push_len(spec, rec, M):
@@ -362,8 +363,10 @@ def run_push_len(spec, rec, M):
             if L >= 3000:
                 d = b"\xa5" * L
                 check_push_list([b"\x01", d, d[:300]], rec, M, {"kind": "pushlist_long", "len": L})
-    L = spec["hi"] - 1
-    rec.sample({"op": "compile_push_data", "len": L, "push_head": R.push_encode(b"\0" * L)[:6]})
+    if spec["lo"] == 0:
+        L = 256
+        st, p = observe(M.streamer.compile_push_data, b"\0" * L)
+        rec.sample({"op": "compile_push_data", "len": L, "push_head": p[:6] if st == "ok" else p})
 
 
 # -- truncation -------------------------------------------------------------------------------
@@ -508,7 +511,8 @@ def run_script_enum(spec, rec, M):
         check_script(R.push_encode(bytes([b])), rec, M, True)
     for L in list(range(2, 300)) + [519, 520, 521, 65535, 65536]:
         check_script(R.push_encode(bytes([L & 0xff]) * L), rec, M, L < 80)
-    rec.sample({"op": "compile(disassemble(s))", "script": bytes.fromhex("76a914") + b"\x11" * 20 + bytes.fromhex("88ac")})
+    s = bytes.fromhex("76a914") + b"\x11" * 20 + bytes.fromhex("88ac")
+    rec.sample({"op": "compile(disassemble(s))", "script": s, "text": observe(M.tools.disassemble, s)[1]})
 
 
 def _rand_script(rng):
